@@ -468,6 +468,7 @@ pub struct RunView {
 }
 
 pub struct World {
+    pub epoch: u64,
     pub events: RefCell<Vec<Ev>>,
     pub runs: RefCell<Vec<RunState>>,
     pub cells: [TaskCell; MAX_RUNS],
@@ -497,7 +498,15 @@ fn current() -> Option<Rc<World>> {
 
 impl World {
     pub fn new() -> Rc<World> {
+        thread_local! {
+            static EPOCH: Cell<u64> = const { Cell::new(0) };
+        }
+        let epoch = EPOCH.with(|e| {
+            e.set(e.get() + 1);
+            e.get()
+        });
         Rc::new(World {
+            epoch,
             events: RefCell::new(Vec::with_capacity(256)),
             runs: RefCell::new(Vec::new()),
             cells: Default::default(),
@@ -789,6 +798,7 @@ impl World {
         let data = Arc::new(WakerData {
             run,
             gen: self.cells[run].gen.get(),
+            epoch: self.epoch,
         });
         unsafe { Waker::from_raw(RawWaker::new(Arc::into_raw(data) as *const (), &VTABLE)) }
     }
@@ -803,6 +813,9 @@ struct UserPanic;
 struct WakerData {
     run: usize,
     gen: u64,
+    /// the simulation this waker belongs to: a waker that an earlier simulation left
+    /// registered somewhere (e.g. in a channel kept alive by an FnRef) is another task
+    epoch: u64,
 }
 
 static VTABLE: RawWakerVTable = RawWakerVTable::new(wk_clone, wk_wake, wk_wake_by_ref, wk_drop);
@@ -818,14 +831,22 @@ unsafe fn wk_clone(p: *const ()) -> RawWaker {
 unsafe fn wk_wake(p: *const ()) {
     let a = Arc::from_raw(p as *const WakerData);
     if let Some(w) = current() {
-        w.on_wake(a.run, a.gen);
+        if a.epoch == w.epoch {
+            w.on_wake(a.run, a.gen);
+        } else {
+            w.fire("wake_of_a_task_of_an_earlier_run_ignored");
+        }
     }
 }
 
 unsafe fn wk_wake_by_ref(p: *const ()) {
     let d = &*(p as *const WakerData);
     if let Some(w) = current() {
-        w.on_wake(d.run, d.gen);
+        if d.epoch == w.epoch {
+            w.on_wake(d.run, d.gen);
+        } else {
+            w.fire("wake_of_a_task_of_an_earlier_run_ignored");
+        }
     }
 }
 
